@@ -194,6 +194,52 @@ CHECKS = {
              "sampled inputs with sanitizers (no uninitialised-read detection), not proved; int overflow excluded by the size assumption.",
         technique="Lean 4 proof of index/guard logic over an executable model + subscript registry from the translator + sanitizer-instrumented differential runs",
         design="§6 C11"),
+    "C02": dict(
+        text="Lean theorems, for all networks / topologies / states / draws / count vectors / time steps and any number of "
+             "steps, for every rational (hence every integer) vector c in the left null space of the stoichiometric matrix "
+             "with no chemostated entry in its support: a reaction firing and a diffusion jump leave total c unchanged; one "
+             "Gillespie Iterate conserves (every pair of draws); one tau-leap Apply_nevt conserves for EVERY count vector; "
+             "lifted by induction to runs; Euler: exact identity over Q, unconditional for every valid grid (all sizes and "
+             "boundary settings: half-edges paired by the opposed direction, sum of an antisymmetric flux via an involution, "
+             "neighbour involution from the generated tables) and for every graph (induction over the edge list, parallel "
+             "edges and self-loops included); species in no reaction / diffusion-only are special cases. Tie: statement lists of all "
+             "apply / derivative functions pinned against the modelled snapshot + replay correspondence of recorded steps of "
+             "all three engines + oracle: exact integer left null space, totals on every recorded sample of real trajectories.",
+        note="Exact over Q; float drift of the Euler engine bounded by 1e-9 relative per step is checked on every recorded "
+             "step, not proved. The model's reading of the C++ is tied by the pinned statement lists + step replay.",
+        technique="Lean 4 proof (induction + Finset involution) + differential correspondence + null-space oracle",
+        design="§6 C02"),
+    "C07": dict(
+        text="Lean theorems about the engine model (one model for grid and graph algorithms), for all networks, topologies, "
+             "states and draws: reaction propensity = k_env * V^(1-n) * prod_s x_s(x_s-1)...(x_s-nu_s+1) when enough reactants, "
+             "else 0 (= nu! * C(x,nu) for integer amounts); positive iff constant non-zero and enough reactants; diffusion "
+             "propensity = amount x rate-law constant (grid D/h^2, graph D*S/(V*d), zero interface diffusivity => 0); the "
+             "engine's two-level cumulative search equals one flat scan over the channel list; channel k is selected exactly on "
+             "an interval of length a_k (so with probability a_k/a0 under a uniform draw) and has a_k>0; every Gillespie step "
+             "applies exactly one legal event (effect masked by chemostats, propensity not), keeps the state a non-negative "
+             "integer state, advances time by L/a0>0; by induction all recorded states/times of any trajectory; dt=log(1/u)/a0 "
+             "is the inverse CDF of Exp(a0) (Mathlib real analysis); tau-leap Poisson means are propensity*dt in call order, "
+             "mean<=0 draws nothing. Tie: statement lists of all step functions pinned against the modelled snapshot "
+             "(translator group Stoch) + per-step draw-replay correspondence + independent CME oracle on every recorded step.",
+        note="Distributions of std::uniform_real_distribution / poisson_distribution / mt19937 are trusted (partial by design); "
+             "no statistical test; float edge cases of the selection (margin < 1e-9 a0) skipped and counted.",
+        technique="Lean 4 proof over a draw-stream model + draw-replay differential correspondence",
+        design="§6 C07"),
+    "C14": dict(
+        text="Lean theorems about the model of engine.cpp's initial-state processing as a function of the primitive draw "
+             "stream, for all states / sizes / draw streams: mode selection (auto = redist for stochastic engines, none for "
+             "Euler; script-accepted modes all processed, others rejected), species-major <-> cell-major layout round trip "
+             "(generated index formulas), 'none' is the identity, redistribution yields non-negative integers with per-species "
+             "total = floor of the real total and support inside the support of the input, Poisson-mode layout (k-th draw has "
+             "the k-th positive amount as mean and is stored at that entry; zero stays zero); progress interval for the "
+             "correction loop (termination w.p.1 is partial: no measure theory). Tie: translator group Stoch (statement lists "
+             "of GenerateStochasticDistribution and of the dispatch pinned against the modelled snapshot, switch constant, "
+             "Python accepted modes/default) + draw-replay correspondence on the rebuilt, draw-logging engine + independent "
+             "oracle on sample 0 (sandboxed with time-out).",
+        note="Lean kernel + {propext, Classical.choice, Quot.sound}; translator; shimmed <random>; distributions of the std "
+             "primitives and mt19937 trusted; termination only as a progress-interval theorem.",
+        technique="Lean 4 proof over a draw-stream model + draw-replay differential correspondence",
+        design="§6 C14"),
 }
 
 ALL = ["C%02d" % i for i in range(1, 21)]
